@@ -108,6 +108,53 @@ def check_hist(ws, case):
     return [], info
 
 
+def gen_continued(ticks):
+    for tick in ticks:
+        for first in ("error", "steps"):
+            for gap in GAPS_MS:
+                for second in ("control", "control-scheduled", "while-true-body", "for-long"):
+                    yield [tick, first, gap, second]
+
+
+def check_continued(ws, case):
+    """The limit is measured from the start of EACH run, also when the VM was left halted (failed run that was not aborted, a few
+    steps of a debugger) longer ago than the limit."""
+    tick, first, gap, second = case
+    steps = [{"op": "vm", "id": 0, "max_runtime_ms": M_MS, "ops": "full"},
+             {"op": "sqf", "id": 0, "text": 'a = 1;\nb = 1 + "x";\nc = 3' if first == "error" else "a = 1; b = 2; c = 3; d = 4", "path": "first.sqf"}]
+    steps += [{"op": "exec", "id": 0, "action": "start"}] if first == "error" else [{"op": "exec", "id": 0, "action": "assembly_step"}] * 2
+    steps.append({"op": "clock", "add_us": gap * 1000})
+    text, sched, terminates = PROGS[second]
+    steps.append({"op": "sqf", "id": 0, "text": text, "suspendable": sched, "path": second + ".sqf"})
+    k = len(steps)
+    steps.append({"op": "exec", "id": 0, "action": "start"})
+    r = ws.call({"mode": "steps", "fork": True, "timeout_ms": 60000, "clock": {"tick_us": tick}, "steps": steps}, variant="fast")
+    info = {"n": 1, "nontrivial": 1, "states": 2, "transitions": 2, "executions": 1}
+    ctx = "after=%s|gap=%s" % (first, "0" if gap == 0 else ("<M" if gap < M_MS else ">M"))
+    if r["outcome"] != "ok":
+        return [("C11|continued|%s|%s" % (r.get("kind", r["outcome"]), ctx), "%r: %s" % (case, r.get("kind", r["outcome"])), None, case)], info
+    ex = r["result"]["steps"][k]
+    logs = [m for m in r["result"]["log"] if m["step"] == k]
+    hit = any(m["code"] == 60002 for m in logs)
+    slack_us = 4 * tick + 1000
+    done = any(m["code"] == 60019 and "done" in m["msg"] for m in logs)
+    if first == "error" and not hit and (not done if terminates else True):
+        # what start does with the rest of the failed script is not C11's business (it may fail again at once): only a run
+        # that the LIMIT ended, or that ran to the limit, is judged after a failed run
+        if terminates or ex["dt_us"] < M_MS * 1000 - slack_us:
+            return [], info
+    if terminates:
+        if hit or not done:
+            return [("C11|continued|short-run-aborted|%s" % ctx, "%r: the run started %d ms after the VM was left halted is short but was %s" % (
+                case, gap, "aborted by the time limit" if hit else "not completed"), None, case)], info
+    else:
+        if ex["dt_us"] > M_MS * 1000 + slack_us or not hit:
+            return [("C11|continued|limit-not-applied|%s" % ctx, "%r: run consumed %.1f ms, limit reported: %s" % (case, ex["dt_us"] / 1000.0, hit), None, case)], info
+        if ex["dt_us"] < M_MS * 1000 - slack_us:
+            return [("C11|continued|aborted-too-early|%s" % ctx, "%r: run aborted after %.1f ms, limit %d ms" % (case, ex["dt_us"] / 1000.0, M_MS), None, case)], info
+    return [], info
+
+
 CAPS = [1, 2, 3, 10, 10000]
 BODIES = {
     "empty": "",
@@ -177,4 +224,6 @@ def spaces(tier):
     q = tier == "quick"
     return [Space("run-histories", gen_hist(2 if q else 3, [100] if q else TICKS_US), check_hist, variant="fast", describe="histories of runs with idle gaps under the virtual clock"),
             Space("single-runs-all-ticks", gen_hist(1, TICKS_US), check_hist, variant="fast", describe="every program alone under every tick size"),
+            Space("continued-after-halt", lambda: gen_continued([100] if q else TICKS_US), check_continued, variant="fast",
+                  describe="a run started on a VM that was left halted (failed run not aborted / two assembly steps) 0 .. 10 limits ago"),
             Space("loop-cap", gen_caps, check_cap, variant="fast", describe="caps x bodies x scheduling mode")]
